@@ -20,6 +20,9 @@
 //   route  every ordered pair of pack types (A, B): create A, use, release, create B three times — B has its
 //          own concrete type, is clean and reads like a never-used pack; random create/use/release histories
 //          with several packs of a few types alive.  A panic of CreatePack/ClosePack is a property failure.
+//   conc   12 (16) goroutines, each writing and reading back (CreatePack, Read, Process, ClosePack) its own stream
+//          of packs of all types at several versions at the same time; numeric fields non-zero and distinct per
+//          goroutine; every encoding equals the sequentially pre-computed bytes, every decode the sequential one.
 //   paramkv key=value texts with blanks/tabs around '=' and the separator (" ", ";", "&"), repeated keys,
 //          prefix/suffix/case variants of the key, empty values: ToStringStr leaves no token of the key with
 //          another value (direct), equals an independent reference and the model; the same texts as
@@ -1406,6 +1409,166 @@ func stagePool2() {
 	}
 }
 
+// ---------------------------------------------------------------- stage conc: independent writers / readers at the same time
+
+// one item of a goroutine's stream, with what a sequential run gives for it
+type concItem struct {
+	pt      *ptype
+	ver     int32
+	rec     map[string]string
+	bytes   []byte   // sequential encoding
+	decoded [2]string // all fields after Read + Process on a never-used pack: constructor, constructor + Clear()
+	ok      bool
+}
+
+// concRec: field values for goroutine g, item i — every numeric field non-zero and different from every other
+// goroutine's (so that digits swapped or mixed between writers are visible), texts tagged with the goroutine
+func concRec(r *vh.Rng, pt *ptype, g, i int) map[string]string {
+	rec := genUseRec(r, pt)
+	for _, f := range fieldsOf(pt.zero()) {
+		if f.name == "Ver" || f.name == "Flush" {
+			continue
+		}
+		switch f.typ.Kind() {
+		case reflect.Int16:
+			rec[f.name] = "i" + strconv.Itoa(1000*(g+1)+i%900)
+		case reflect.Int32:
+			rec[f.name] = "i" + strconv.Itoa((g+1)*100000007%2000000000+i*7+len(f.name))
+		case reflect.Int64:
+			rec[f.name] = "i" + strconv.FormatInt(int64(g+1)*1000000000000007+int64(i)*7919+int64(len(f.name)), 10)
+		case reflect.String:
+			if v, ok := rec[f.name]; ok && (v == "s-" || r.Chance(50)) && f.name != "Data" && f.name != "Dbc" {
+				rec[f.name] = "s" + vh.Hex([]byte(fmt.Sprintf("g%d-%d-%s", g, i, f.name)))
+			}
+		}
+	}
+	if _, ok := rec["Dbc"]; ok {
+		rec["Dbc"] = "s" + vh.Hex([]byte(fmt.Sprintf("user=g%d;password=PWg%dx%d host=h%d", g, g, i, i)))
+	}
+	if pt.name == "UdpActiveStatsPack" {
+		rec["ActiveStats"] = fmt.Sprintf("l%d,%d,%d,%d,%d", g+1, 10*(g+1)+1, 100*(g+1), i%100, g*i%1000)
+	}
+	return rec
+}
+
+// useOnce: what one writer + reader does with an item on pack q: read the bytes, Process()
+func concDecode(it *concItem, q udp.UdpPack, b []byte) (string, vh.Outcome) {
+	var out string
+	o := vh.Guard(func() {
+		if it.pt.name == "UdpRelayPack" {
+			setCanon(q, fieldByName(q, "Len"), "i"+strconv.Itoa(len(b)))
+		}
+		q.Read(gio.NewDataInputX(b))
+		q.Process()
+		out = canon(q, true)
+	})
+	return out, o
+}
+
+// stageConc: G goroutines, each writing and reading back its own stream of packs at the same time; every
+// encoding must be the sequentially pre-computed bytes and every decode (Read + Process on a pack from
+// CreatePack, released afterwards) what a sequential run gives.  The tracer has one goroutine per transaction.
+func stageConc() {
+	G, rounds := 12, 25
+	if env.Thorough {
+		G, rounds = 16, 150
+	}
+	vers := []int32{10110, 20104, 30103, 50101, 10102}
+	streams := make([][]*concItem, G)
+	for g := 0; g < G; g++ { // sequential pre-computation
+		r := rng.Fork()
+		for ti := range ptypes {
+			pt := &ptypes[ti]
+			for vi, ver := range vers {
+				if vi >= 3 && !env.Thorough && (ti+g)%2 == 0 {
+					continue
+				}
+				it := &concItem{pt: pt, ver: ver, rec: concRec(r, pt, g, len(streams[g]))}
+				b, o := goWrite(pt, ver, it.rec)
+				if !o.OK() {
+					continue
+				}
+				it.bytes = b
+				refNew := pt_new(pt, ver)
+				refClr := pt.new()
+				vh.Guard(func() { refClr.Clear(); refClr.SetVersion(ver) })
+				d0, o0 := concDecode(it, refNew, b)
+				d1, o1 := concDecode(it, refClr, b)
+				if !o0.OK() || !o1.OK() {
+					continue // Process() of this content panics also sequentially (ActiveStack with short Data)
+				}
+				it.decoded = [2]string{d0, d1}
+				it.ok = true
+				streams[g] = append(streams[g], it)
+			}
+		}
+	}
+	type bad struct {
+		it        *concItem
+		g         int
+		what, got string
+	}
+	var mu sync.Mutex
+	var bads []bad
+	var ops int64
+	start := make(chan struct{})
+	var wg sync.WaitGroup
+	for g := 0; g < G; g++ {
+		wg.Add(1)
+		go func(g int) {
+			defer wg.Done()
+			<-start
+			n := 0
+			for round := 0; round < rounds; round++ {
+				for _, it := range streams[g] {
+					n++
+					b, o := goWrite(it.pt, it.ver, it.rec)
+					if !o.OK() || string(b) != string(it.bytes) {
+						mu.Lock()
+						bads = append(bads, bad{it, g, "encoding", vh.Clip(vh.Hex(b), 200) + o.Panic})
+						mu.Unlock()
+						continue
+					}
+					var q udp.UdpPack
+					if oc := vh.Guard(func() { q = udp.CreatePack(it.pt.code, it.ver) }); !oc.OK() || q == nil || reflect.ValueOf(q).IsNil() {
+						mu.Lock()
+						bads = append(bads, bad{it, g, "CreatePack", oc.Panic})
+						mu.Unlock()
+						continue
+					}
+					d, od := concDecode(it, q, b)
+					vh.Guard(func() { udp.ClosePack(q) })
+					if !od.OK() || (d != it.decoded[0] && d != it.decoded[1]) {
+						mu.Lock()
+						bads = append(bads, bad{it, g, "decode", vh.Clip(d, 300) + od.Panic})
+						mu.Unlock()
+					}
+				}
+			}
+			mu.Lock()
+			ops += int64(n)
+			mu.Unlock()
+		}(g)
+	}
+	close(start)
+	wg.Wait()
+	rep.CountN("conc.write_read_process_ops", int(ops))
+	rep.CountN("conc.goroutines", G)
+	for g := 0; g < G; g++ {
+		rep.Case(fmt.Sprintf("conc goroutine %d: %d items × %d rounds", g, len(streams[g]), rounds), len(streams[g]) > 0)
+	}
+	for _, b := range bads {
+		want := vh.Clip(vh.Hex(b.it.bytes), 200)
+		if b.what == "decode" {
+			want = vh.Clip(b.it.decoded[1], 300)
+		}
+		rep.Fail("property", b.it.pt.name+":differs-under-concurrency",
+			fmt.Sprintf("%s version %d, with %d goroutines writing and reading their own packs at the same time: the %s of goroutine %d's pack is %s; sequentially it is %s",
+				b.it.pt.name, b.it.ver, G, b.what, b.g, b.got, want),
+			map[string]interface{}{"stage": "conc", "type": b.it.pt.name, "ver": b.it.ver, "rec": recString(b.it.pt, b.it.rec), "goroutines": G})
+	}
+}
+
 // ---------------------------------------------------------------- stage route: pools across types
 
 // cleanDiff: how a pack just obtained from CreatePack differs from a never-used pack (constructor +
@@ -2401,6 +2564,8 @@ func runReplay(path string) {
 			}
 			rep.Case("proc replay "+rec, true)
 			rep.Note("proc replay: model answers %s (packs with derived pointer fields cannot be rebuilt from a record; re-run the stage with the seed of the replay)", vh.Clip(outs[0], 200))
+		case "conc":
+			stageConc()
 		case "route":
 			stageRoute()
 		case "paramkv":
@@ -2502,6 +2667,7 @@ func main() {
 	runStage("pool", stagePool)
 	runStage("pool2", stagePool2)
 	runStage("route", stageRoute)
+	runStage("conc", stageConc)
 	runStage("mask", stageMask)
 	runStage("paramkv", stageParamKV)
 	runStage("num", stageNum)
